@@ -1,4 +1,5 @@
 pub mod cols;
+pub mod cycle;
 #[macro_use]
 pub mod world;
 #[macro_use]
